@@ -123,15 +123,16 @@ func c03Routing(c *lib.Ctx, idx uint64) {
 	}
 	pool = append(pool[:len(all)], all...)
 	o := lib.GenOpts{
-		FileType:  ft,
-		Mesgs:     pool,
-		Records:   15 + rng.Intn(60),
-		Locals:    1 + rng.Intn(8),
-		Redefine:  25,
-		BigEndian: 50,
-		Unknown:   25,
-		Serial:    true,
-		MaxFields: 4,
+		FileType:      ft,
+		Mesgs:         pool,
+		Records:       15 + rng.Intn(60),
+		Locals:        1 + rng.Intn(8),
+		Redefine:      25,
+		BigEndian:     50,
+		Unknown:       25,
+		Serial:        true,
+		MaxFields:     4,
+		ZeroFieldDefs: 4,
 	}
 	g := lib.NewPlanGen(rng, o)
 	plan := g.Fill()
